@@ -358,8 +358,17 @@ func HBChanSend(ch any) {
 	if sc == nil || sc.hb == nil || sc.aborted {
 		return
 	}
-	HBAcquire(chanBack{reflect.ValueOf(ch).Pointer()})
 	HBRelease(ch)
+}
+
+// HBChanSent is the second half of a send, applied once the send has SUCCEEDED: the receive that made room for it
+// happens before it completes (a buffered channel used as a semaphore: the previous holder's release is a receive).
+func HBChanSent(ch any) {
+	sc := s
+	if sc == nil || sc.hb == nil || sc.aborted {
+		return
+	}
+	HBAcquire(chanBack{reflect.ValueOf(ch).Pointer()})
 }
 
 func HBChanClose(ch any) { HBRelease(ch) }
